@@ -207,5 +207,6 @@ pub fn behaviour() -> Behaviour {
         thorough: 20000,
         batch: 25,
         assumptions: &["generation counters are excluded from 'indistinguishable' because clone_from may legitimately reuse storage"],
+        miri_units: 0,
     }
 }
